@@ -89,6 +89,7 @@ package gocvss40
 //@   modifies b
 
 //@ func notMandatory(b, pre, v)
+//@   inline mandatory
 //@   modifies b
 
 // ---- Vector / lenVec (C02, C08, C17): the serialiser writes the canonical form in one allocation ----
